@@ -319,6 +319,8 @@ where
         let settled = self
             .send_transfer_without_modifying_unsettled_map(writer, transfer, payload)
             .await?;
+        #[cfg(fe2o3_amqp_verif)]
+        crate::verif::preempt("sender-unsettled-insert").await;
         match settled {
             true => Ok(Settlement::Settled(delivery_tag)),
             // If not set on the first (or only) transfer for a (multi-transfer)
